@@ -57,12 +57,13 @@ INSTANCE_ALLOW: dict[str, tuple[str, str]] = {
     "__gt__": ("any", "sort filters compare items with < (reflected)"),
     "__le__": ("any", "comparison"), "__ge__": ("any", "comparison"), "__ne__": ("any", "comparison"),
     # Mapping / Sequence mixin methods: part of the abc interface the docs name
-    "keys": ("mapping", "collections.abc.Mapping mixin; docs 'Drops' use the Mapping interface"),
-    "items": ("mapping", "collections.abc.Mapping mixin; context.get_item uses obj.items() for .first, for tag iterates items"),
-    "values": ("mapping", "collections.abc.Mapping mixin"),
-    "get": ("mapping", "collections.abc.Mapping mixin"),
-    "index": ("sequence", "collections.abc.Sequence mixin (uniq filter uses sequence.index)"),
-    "count": ("sequence", "collections.abc.Sequence mixin"),
+    # Of the Mapping mixin methods only items() is used by the engine (context.get_item `.first`,
+    # for-tag / first filter iterate `obj.items()`, json encoder); it is iteration of a mapping.
+    # get / keys / values / pop / setdefault / copy and Sequence.index / count are NOT on the
+    # list: the engine never needs them (a C-level dict.get / list.index on a dict / list
+    # subclass bypasses the drop's __getitem__ whitelist).
+    "items": ("mapping", "iteration of a mapping: liquid2/context.py get_item (.first), builtin/expressions.py "
+                         "LoopExpression._to_iter, builtin/filters/array.py first; docs 'Sequences and mappings'"),
     # documented hooks
     "__liquid__": ("any", "docs/variables_and_drops.md '__liquid__'"),
     "__html__": ("any", "docs/variables_and_drops.md '__html__'"),
@@ -108,6 +109,9 @@ STDLIB_ALLOW: dict[tuple[str, str], str] = {
 }
 
 
+STR_API = frozenset(n for n in dir(str) if n not in dir(object) or n in ("__format__",))
+
+
 class Monitor:
     """Attribute-read log + per-case findings."""
 
@@ -134,7 +138,8 @@ class Monitor:
         self.calls_seen += 1
         self.bad.append({
             "kind": "called",
-            "key": f"callable-item-called:{kind}@{self.innermost_liquid2(frame)}",
+            "key": (f"method-called:{kind}@{self.innermost_liquid2(frame)}" if kind.startswith("dict.")
+                    else f"callable-item-called:{kind}@{self.innermost_liquid2(frame)}"),
             "callable": kind,
             "caller": self.modfunc(frame.f_code) or f"{os.path.basename(frame.f_code.co_filename)}:{frame.f_code.co_name}",
         })
@@ -217,6 +222,10 @@ class Monitor:
                 return f"'{name}' is protocol only when {when}; object is {info.shape}"
             if caller_liq is None and (os.path.basename(fn), name) in STDLIB_ALLOW:
                 return None
+            if info.is_str and name in STR_API:
+                # the object IS a Liquid string (docs/variables_and_drops.md type table): string
+                # filters call str methods on it; only what the subclass ADDS is off limits
+                return None
             return f"instance attribute '{name}' is not part of the documented protocol"
         # class level
         if caller_liq is not None:
@@ -232,9 +241,10 @@ MON = Monitor()
 
 
 class SpyInfo:
-    __slots__ = ("shape", "is_mapping", "is_sequence", "role")
+    __slots__ = ("shape", "is_mapping", "is_sequence", "role", "is_str")
 
-    def __init__(self, shape: str, is_mapping: bool, is_sequence: bool, role: str = ""):
+    def __init__(self, shape: str, is_mapping: bool, is_sequence: bool, role: str = "", is_str: bool = False):
+        self.is_str = is_str
         self.shape = shape
         self.is_mapping = is_mapping
         self.is_sequence = is_sequence
@@ -324,7 +334,8 @@ def _make(shape: str, bases: tuple[type, ...], ns: dict[str, Any], *, role: str 
     abc_based = any(isinstance(b, ABCMeta) for b in bases)
     meta = SpyABCMeta if abc_based else SpyMeta
     cls = meta(f"CNRY_classname_cls_{shape}", bases or (object,), full)
-    INFO[cls] = SpyInfo(shape, issubclass(cls, Mapping), issubclass(cls, Sequence), role)
+    INFO[cls] = SpyInfo(shape, issubclass(cls, Mapping), issubclass(cls, Sequence), role,
+                        issubclass(cls, str))
     CLASSES[shape] = cls
     return cls
 
@@ -503,10 +514,96 @@ Catalog = _make("catalog", (), {
     "npgettext": _cat("npgettext"),
 }, role="translations")
 
+# ---------------------------------------------------------------------------------------
+# subclasses of the builtin containers (NOT abc drops).  C-level dict / list methods read the
+# underlying storage and bypass every override, so the storage holds canaries under all the
+# names the workload tries while the overridden protocol methods expose a strict subset.
+# ---------------------------------------------------------------------------------------
+
+STORAGE_NAMES: list[str] = ["secret", "_private", "password", "__class__", "__dict__", "__init__",
+                            "prop", "delete", "keys", "format", "get", "values", "items"]
+
+
+def _exposed_for(idx: int) -> dict[str, Any]:
+    return {
+        "title": f"PUB_TITLE_{idx}", "n": 7 + idx, "child": Plain(idx + 10),
+        "tags": [f"PUB_TAG_{idx}A", f"PUB_TAG_{idx}B"], "flag": idx % 2 == 0, "nothing": None,
+    }
+
+
+def _dd_setup(self, idx: int, **kw: Any) -> None:  # noqa: ARG001
+    self._exposed = _exposed_for(idx)
+    for n in STORAGE_NAMES:
+        dict.__setitem__(self, n, f"CNRY_dictstorage_{n.strip('_') or 'x'}_dictdrop")
+    dict.__setitem__(self, "hidden_entry", "CNRY_dictstorage_hidden_entry_dictdrop")
+    for k, v in _o(self, "_exposed").items():
+        dict.__setitem__(self, k, v)
+
+
+DictDrop = _make("dictdrop", (dict,), {
+    "_setup": _dd_setup,
+    "__getitem__": _map_getitem,
+    "__iter__": lambda self: iter(_o(self, "_exposed")),
+    "__len__": lambda self: len(_o(self, "_exposed")),
+    "__contains__": lambda self, k: k in _o(self, "_exposed"),
+    "keys": lambda self: _o(self, "_exposed").keys(),
+    "items": lambda self: _o(self, "_exposed").items(),
+    "__reversed__": lambda self: reversed(list(_o(self, "_exposed"))),
+    # get / values / pop / setdefault / copy deliberately NOT overridden (dict's own, C level)
+})
+
+
+def _dg_setup(self, idx: int, **kw: Any) -> None:  # noqa: ARG001
+    self._hidden = "kept-private"
+    for k, v in _exposed_for(idx).items():
+        dict.__setitem__(self, k, v)
+
+
+def _dg_method(nm: str):
+    def m(self, *a: Any, **k: Any) -> Any:  # noqa: ARG001
+        MON.called(f"dict.{nm}", _get(1))
+        c = _canary("methodresult", nm, "dictget")
+        return [c] if nm in ("values", "keys") else ({"x": c} if nm == "copy" else c)
+
+    return m
+
+
+DictGet = _make("dictget", (dict,), {
+    "_setup": _dg_setup,
+    **{nm: _dg_method(nm) for nm in ("get", "setdefault", "pop", "popitem", "values", "copy", "update")},
+})
+
+
+def _ld_setup(self, idx: int, **kw: Any) -> None:  # noqa: ARG001
+    self._pub = [MapDrop(idx * 3 + j) for j in range(3)]
+    list.extend(self, [f"CNRY_liststorage_el{j}_listdrop" for j in range(5)])
+
+
+def _ld_getitem(self, key):  # noqa: ANN001
+    return _o(self, "_pub")[key]
+
+
+ListDrop = _make("listdrop", (list,), {
+    "_setup": _ld_setup,
+    "__getitem__": _ld_getitem,
+    "__iter__": lambda self: iter(_o(self, "_pub")),
+    "__len__": lambda self: len(_o(self, "_pub")),
+    "__contains__": lambda self, x: x in _o(self, "_pub"),
+    "__reversed__": lambda self: reversed(_o(self, "_pub")),
+    # index / count / copy / __add__ deliberately NOT overridden (list's own, C level)
+})
+
+
+def _ss_new(cls, idx: int = 0, **kw: Any):  # noqa: ANN001, ARG001
+    return str.__new__(cls, f"PUB_STRSUB_{idx}")
+
+
+StrSub = _make("strsub", (str,), {"__new__": _ss_new, "__str__": lambda self: str.__str__(self)})
+
 SPY_SHAPES = [
     "plain", "callprop", "mapping", "sequence", "raiser_key", "raiser_type", "raiser_index",
     "raiser_attr", "raiser_value", "liquid", "html", "asyncdrop", "magic", "iterable",
-    "forcedefault",
+    "forcedefault", "dictdrop", "dictget", "listdrop", "strsub",
 ]
 
 # what each spy shape legitimately shows for a *string key* (relation check is skipped for
@@ -516,6 +613,9 @@ VISIBLE["mapping"] = frozenset(EXPOSED_KEYS)
 VISIBLE["asyncdrop"] = frozenset(EXPOSED_KEYS)
 VISIBLE["sequence"] = frozenset(EXPOSED_KEYS)   # its items are mapping drops
 VISIBLE["iterable"] = frozenset(EXPOSED_KEYS)
+VISIBLE["dictdrop"] = frozenset(EXPOSED_KEYS)
+VISIBLE["dictget"] = frozenset(EXPOSED_KEYS)
+VISIBLE["listdrop"] = frozenset(EXPOSED_KEYS)   # its items are mapping drops
 
 
 def make(shape: str, idx: int = 0, **kw: Any) -> Any:
